@@ -112,6 +112,10 @@ class _Json(Ty):
             _sort_cache["Json"] = z3.DeclareSort("Json")
         return _sort_cache["Json"]
 
+    def wellformed(self, term):
+        from . import builtins as B
+        return B.json_facts(term)
+
 
 class Opaque(Ty):
     """uninterpreted sort with a name: values only support equality"""
@@ -304,6 +308,17 @@ class Dict(Ty):
         out = [self.size(term) >= 0,
                z3.ForAll([k], z3.Implies(z3.Select(dom, k), self.size(term) >= 1), patterns=[z3.Select(dom, k)])]
         return out
+
+
+class Map(Ty):
+    """total map K -> V (ghost maps, python defaultdict: a missing key reads as the default value)"""
+
+    def __init__(self, k, v):
+        self.k, self.v = k, v
+        self.name = "Map[%r,%r]" % (k, v)
+
+    def sort(self):
+        return z3.ArraySort(self.k.sort(), self.v.sort())
 
 
 class Rec(Ty):
